@@ -12,8 +12,8 @@ import copy
 from concurrent.futures import ThreadPoolExecutor
 
 from lib import *
-import c15gen as G
-import c15mon as MON
+from props import c15gen as G
+from props import c15mon as MON
 
 TARGETS = ["Props/C15.vo", "Run/Eval_C15.vo"]
 HEADER = ("From Coq Require Import NArith List Bool.\nFrom UPF Require Import Model.Up4Ids Run.Eval_C15.\n"
@@ -329,7 +329,7 @@ def run(tier, seed, replay=None):
         terms.append(t)
         owners.append(c)
     try:
-        idx = coq_eval_shards("C15", HEADER, terms, shard=6)
+        idx = coq_eval_shards("C15", HEADER, terms, shard=30)
         for i in idx[:20]:
             ck.mismatch(f"model and implementation disagree on {owners[i]['name']}", {"input": owners[i]})
         ck.tie("correspondence: model cause, Write trace and bookkeeping = implementation after every operation", not idx and len(terms) == len(kept),
